@@ -17,7 +17,7 @@ from concurrent.futures import ThreadPoolExecutor
 
 ROOT = os.path.dirname(os.path.dirname(os.path.abspath(__file__)))
 COQ = os.path.join(ROOT, "coq")
-HARNESS = os.path.join(ROOT, "harness")
+HARNESS = os.environ.get("RV_HARNESS") or os.path.join(ROOT, "harness")   # RV_HARNESS: scratch copy used by tools/seed_confirm.sh
 WORK = os.path.join(ROOT, "work")
 EVID = os.path.join(ROOT, "evidence")
 REPLAYS = os.path.join(ROOT, "replays")
@@ -170,7 +170,8 @@ def run_harness(binname, mode, outdir, seed=1, tier="quick", case=None, timeout=
             os.remove(os.path.join(outdir, f))
         except FileNotFoundError:
             pass
-    cmd = [os.path.join(HARNESS, "target", "debug", binname), mode, "--out", outdir]
+    tdir = os.environ.get("CARGO_TARGET_DIR") if os.environ.get("RV_HARNESS") else None
+    cmd = [os.path.join(tdir or os.path.join(HARNESS, "target"), "debug", binname), mode, "--out", outdir]
     if mode == "gen":
         cmd += ["--seed", str(seed), "--tier", tier]
     else:
@@ -277,6 +278,8 @@ def write_replay(pid, payload):
 
 
 def write_evidence(pid, ev):
+    if os.environ.get("RV_NO_EVIDENCE"):
+        return
     os.makedirs(EVID, exist_ok=True)
     with open(os.path.join(EVID, "%s.json" % pid), "w") as f:
         json.dump(ev, f, indent=1)
